@@ -48,7 +48,9 @@ pub fn run_any(prop_id: &str, data: &[u8]) {
     let (scs, known) = CACHE.get_or_init(|| {
         let props = crate::all_properties();
         let prop = props.iter().find(|p| p.id == prop_id).expect("unknown property");
-        let scs: Vec<_> = prop.subchecks.iter().filter(|s| matches!(s.kind, Kind::Generated { .. })).copied().collect();
+        // sub-checks whose single case is long (thousands of summands, quick budget below 10^4
+        // cases) would take most of a campaign's time at a few hundred executions per second
+        let scs: Vec<_> = prop.subchecks.iter().filter(|s| matches!(s.kind, Kind::Generated { .. }) && s.quick >= 10_000).copied().collect();
         (scs, crate::known_signatures(prop_id))
     });
     if data.is_empty() || scs.is_empty() {
